@@ -60,7 +60,7 @@ CHECKS["C06"] = ("model_checking",
     "Part 1: TLC enumerates calls of find_optimal / find_arg_optimal / optimal_cost_value / projection over the cost algebra of Costs.tla (negative, > 2^31, "
     "+inf, -inf; own-cost dict and function variables; min and max) with the exact optimal value sets and costs; each is executed on the real functions. "
     "Part 2: executions of the real DSA (A, B, C) and A-DSA computations; at every change of value TLC checks that the new value is in ArgBestLocal computed "
-    "from the value messages of that evaluation. Part 3: Dsa.tla (invariant MovesAreBestResponses) checked exhaustively on TLC-drawn instances and bound to the code by replay. Part 4: the same with Adsa.tla for A-DSA (variants A, B, C; periodic actions as steps; up to 2-3 ticks per computation).", _N, "DESIGN.md section 4 C06")
+    "from the value messages of that evaluation. Part 3: Dsa.tla (invariant MovesAreBestResponses) checked exhaustively on TLC-drawn instances and bound to the code by replay. Part 4: the same with Adsa.tla for A-DSA (variants A, B, C; periodic actions as steps; up to 2 ticks per computation).", _N, "DESIGN.md section 4 C06")
 CHECKS["C11"] = ("model_checking",
     "TLC-enumerated relations x slicing walks with the expected slices (Gen_C11.tla/Relations.tla), executed on the real relation classes per PYTHONHASHSEED",
     "TLC enumerates relations of all eight kinds over ordered scopes (every declared order x textual/parameter order for expression and python-function "
